@@ -658,9 +658,11 @@ class UnionType(Type):
                 pass
             except TypeError:
                 pass
+            except AssertionError:
+                # EnumType refuses with an assertion
+                pass
 
-        if not isinstance(value, dict):
-            raise ValueError(f"value is not within the types {self}")
+        raise ValueError(f"value is not within the types {self}")
 
 
 class DictType(Type):
